@@ -1,5 +1,6 @@
 import TunnoxModel.Driver.Util
 import TunnoxModel.Spec.C19
+import TunnoxModel.Model.C19Fault
 /-!
   Line protocol for C19 (see harness/c19/main.go for the case / observation grammar).
   The current tree corresponds to the `.repaired` variant of `DeleteMapping`.
@@ -103,7 +104,50 @@ def finalToks (f : Final) : List String :=
 
 def obsStr (o : Obs) : String := " ".intercalate (o.slots.map slotStr ++ ["|"] ++ finalToks o.final)
 
+/-! ### single storage-failure cases: `c19f now N bases k … pre n op… F k <create-op>` -/
+
+structure FaultCase where
+  i : Input
+  uni : Input
+  cl : Nat
+  sub : String
+  base : String
+  th : String
+  tp : Nat
+  k : Nat
+
+def parseFaultCase (ts : List String) : Option FaultCase :=
+  match ts with
+  | "c19f" :: "now" :: now :: "bases" :: ts => do
+    let now ← now.toNat?
+    let (bases, ts) ← takeCounted ts
+    let bases ← bases.mapM strOfHex
+    match ts with
+    | "pre" :: ts => do
+      let (pre, ts) ← takeCounted ts
+      let pre ← pre.mapM parseOp
+      match ts with
+      | ["F", k, op] => do
+        let k ← k.toNat?
+        match ← parseOp op with
+        | .create cl sub base th tp =>
+          let cf : Config := ⟨.repaired, now, bases, []⟩
+          pure ⟨⟨cf, [], [pre], []⟩, ⟨cf, [], [pre ++ [.create cl sub base th tp]], []⟩, cl, sub, base, th, tp, k⟩
+        | _ => none
+      | _ => none
+    | _ => none
+  | _ => none
+
+def runFaultModel (fc : FaultCase) : String :=
+  let o := modelFault fc.i fc.uni fc.cl fc.sub fc.base fc.th fc.tp fc.k
+  " ".intercalate (finalToks o.before ++ ["|", resStr o.res, "|"] ++ finalToks o.after)
+
 def runModel (ts : List String) : String :=
+  if ts.head? == some "c19f" then
+    match parseFaultCase ts with
+    | some fc => runFaultModel fc
+    | none => "bad-case"
+  else
   match parseCase ts with
   | some i => obsStr (model i)
   | none => "bad-case"
@@ -155,6 +199,9 @@ def decDrain : Nat → Dec → List String → Option (List Slot)
       let more ← decDrain fuel d1 rest
       pure (ss ++ more)
 
+def parseIds (s : String) : Option (List Nat) :=
+  if s == "-" then some [] else (s.splitOn ".").mapM String.toNat?
+
 def parseFinal (toks : List String) : Final :=
   { next := 0
     idx := toks.filterMap (fun tok =>
@@ -169,7 +216,15 @@ def parseFinal (toks : List String) : Final :=
         let n ← n.toNat?
         pure (n, ⟨mappingID n, "", "", ← strOfHex d, ← c.toNat?, ← strOfHex th, ← tp.toNat?, ← strOfHex st, ← e.toNat?⟩)
       | _ => none)
-    claims := [], clists := [], glist := none, reg := [] }
+    claims := []
+    clists := toks.filterMap (fun tok =>
+      if tok.startsWith "cl:" then
+        match (tok.drop 3).toString.splitOn "=" with
+        | [c, ids] => do pure (← c.toNat?, ← parseIds ids)
+        | _ => none
+      else none)
+    glist := (toks.find? (·.startsWith "gl=")).bind (fun tok => parseIds (tok.drop 3).toString)
+    reg := [] }
 
 def parseObs (i : Input) (toks : List String) : Option Obs := do
   let slotToks := toks.takeWhile (· != "|")
@@ -179,7 +234,21 @@ def parseObs (i : Input) (toks : List String) : Option Obs := do
   let more ← decDrain (drainFuel i) d1 rest
   pure ⟨ss ++ more, parseFinal ((toks.dropWhile (· != "|")).drop 1)⟩
 
+def parseFaultObs (toks : List String) : Option FaultObs :=
+  let a := toks.takeWhile (· != "|")
+  let rest := (toks.dropWhile (· != "|")).drop 1
+  let b := rest.takeWhile (· != "|")
+  let c := (rest.dropWhile (· != "|")).drop 1
+  match b with
+  | [r] => if !(rest.contains "|") then none else (parseRes r).map (fun res => ⟨parseFinal a, res, parseFinal c⟩)
+  | _ => none
+
 def runHolds (caseToks obsToks : List String) : String :=
+  if caseToks.head? == some "c19f" then
+    match parseFaultObs obsToks with
+    | some o => boolStr (holdsFault o)
+    | none => "false"
+  else
   match parseCase caseToks with
   | some i =>
     match parseObs i obsToks with
